@@ -326,11 +326,12 @@ class C02(Property):
             "all/some/no environments chunk()ed in both declaration orders), result-file names of several shapes (containing '.gz' without ending in it, "
             "sub-directories, spaces, non-ASCII); 30% of the un-chunked cases cut a SPARSE log instead (version + experiment line + a PRNG-chosen subset of "
             "the records, optionally shuffled: what a killed multi-process run leaves); 30% of the cases interrupt a successful resumption again, 1-3 times, "
-            "on the same path in the same process; non-trivial = some cut strictly inside the log restores "
+            "on the same path in the same process; every .gz cut is sent to the model as compressed bytes + the gzip members of the real file; non-trivial = some cut strictly inside the log restores "
             "at least one record and leaves at least one task to run; distinct by canonical JSON of the case")
     trusted_base = [
         "file-system append semantics: a killed run leaves a byte prefix of what it would have written (the cut files are produced by truncating a complete log)",
-        "zlib/gzip: a truncated gzip member does not decompress completely; complete members decompress to what was written (the model sees .gz files as 'j complete members + torn flag')",
+        "zlib/gzip is not modelled; what the protocol needs is stated as the three laws of MLaws about recognising ONE complete member at the front of a byte string (complete member recognised whatever follows; a truncated member never taken for complete; no empty member). The driver's concrete scanner (table of the members of the real file) is proved to satisfy them when memberTableOK holds (reported as hyp), and the model's member scan is compared with the size the real _drop_torn_tail leaves on every .gz cut; the 4096-byte chunking of the real loop is below the model",
+        "the three 'is this a gzip file' name tests are extracted by regex from sinks.py / sources.py / experiments/core.py on every run (Generated/C02GzPredicates.lean); supported shapes: '<lit>' in <name>, <name>.endswith('<lit>'); other shapes: obligation skipped and reported",
         "json text of a record is one line of printable ASCII starting with '[' (checked on every real record); json.loads rejects every proper prefix of it (checked on every tail the cuts produce); the model's scanner `balanced` is compared with json.loads through the restore outcomes",
         "re-running the same experiment produces the same record text for the same task (deterministic components: C01/C03); a raising task writes no record",
         "TransactionResult is a function of the records per id (`bodies`); Table/Result construction itself is C07/C17",
@@ -340,8 +341,10 @@ class C02(Property):
     assumptions = ["the experiment lists every triple once and is re-run unchanged", "evaluator objects are truthy",
                    "record order of a multi-process run is arbitrary: appended records are compared as multisets"]
     partial_theorems = {
-        "resume_cur_partial": "the pinned code is only correct for cuts on a record boundary after the experiment line; the full theorem (resume_correct) is proved for the code with fixes/C02-*.diff",
-        "resume_correct": "hypothesis NonEmptyI (every I record carries rows) is necessary: empty_rows_counterexample / finding C02-F6 (recorded, not repaired)",
+        "resume_cur_partial": "the pinned code was only correct for cuts on a record boundary after the experiment line; the full theorem (resume_correct) holds for the repaired code",
+        "resume_correct_committed": "code as committed in /repo (torn-tail, preamble, gz repair): hypothesis NonEmptyI is necessary (empty_rows_counterexample, finding C02-F6); "
+                                    "with fixes/C02-finished-triples.diff the hypothesis is gone (resume_correct, no_reeval, resume_chain, resume_from_any_sublog, gz_resume_correct)",
+        "resume_eq_full_committed": "as resume_correct_committed", "no_reeval_committed": "as resume_correct_committed", "resume_chain_committed": "as resume_correct_committed",
     }
 
     # ---------------------------------------------------------------- translator part
